@@ -552,7 +552,7 @@ package keeper
 
 //@ func (msgServer) sendMessage(ctx, destinationDomain, recipient, destinationCaller, messageSender, nonce, messageBody) (err)
 //@ ensures[C12.sr C09.sr C03.sr] err == nil ==> !srPausedIn(st)
-//@ ensures[C08.ok C09.ok C06.ok C14.ok C05.ok C07.ok C12.pause] (err == nil) <==> (!srPausedIn(st) && bodyFits(st, len(messageBody)) && len(recipient) == 32 && recipient != zeros(32) && len(destinationCaller) == 32 && len(messageSender) == 32 && !emitErr(0))
+//@ ensures[C08.ok C09.ok C12.pause] (err == nil) <==> (!srPausedIn(st) && bodyFits(st, len(messageBody)) && len(recipient) == 32 && recipient != zeros(32) && len(destinationCaller) == 32 && len(messageSender) == 32 && !emitErr(0))
 //@ emits[C06.layout C05.layout C07.layout C09.layout C14.layout C12.layout C08.layout] [MessageSent{Message: encMessage(0, 4, destinationDomain, nonce, messageSender, recipient, destinationCaller, messageBody)}]
 //@ calls []
 //@ modifies none
@@ -561,7 +561,7 @@ package keeper
 
 //@ func (msgServer) SendMessage(goCtx, msg) (resp, err)
 //@ ensures[C12.sr] err == nil ==> !srPausedIn(old(st))
-//@ ensures[C08.ok C06.ok C14.ok C05.ok C12.pause] (err == nil) <==> (sendOK(old(st), msg.From, msg.Recipient, msg.MessageBody) && !emitErr(0))
+//@ ensures[C08.ok C12.pause] (err == nil) <==> (sendOK(old(st), msg.From, msg.Recipient, msg.MessageBody) && !emitErr(0))
 //@ ensures[C07.stamp C06.nonce C14.nonce C05.nonce C08.nonce] err == nil ==> resp.Nonce == nextNonceOf(old(st)) && st.nextNonce.set && st.nextNonce.val == resp.Nonce + 1
 //@ emits[C05.sender C06.layout C07.emitted C14.emitted C12.emitted C08.emitted] [MessageSent{Message: encMessage(0, 4, msg.DestinationDomain, nextNonceOf(old(st)), pad32(accBytes(msg.From)), msg.Recipient, zeros(32), msg.MessageBody)}]
 //@ calls[C04.others C05.others] []
@@ -569,7 +569,7 @@ package keeper
 
 //@ func (msgServer) SendMessageWithCaller(goCtx, msg) (resp, err)
 //@ ensures[C12.sr] err == nil ==> !srPausedIn(old(st))
-//@ ensures[C08.ok C06.ok C14.ok C05.ok C12.pause] (err == nil) <==> (sendOK(old(st), msg.From, msg.Recipient, msg.MessageBody) && len(msg.DestinationCaller) == 32 && msg.DestinationCaller != zeros(32) && !emitErr(0))
+//@ ensures[C08.ok C12.pause] (err == nil) <==> (sendOK(old(st), msg.From, msg.Recipient, msg.MessageBody) && len(msg.DestinationCaller) == 32 && msg.DestinationCaller != zeros(32) && !emitErr(0))
 //@ ensures[C07.stamp C06.nonce C14.nonce C05.nonce C08.nonce] err == nil ==> resp.Nonce == nextNonceOf(old(st)) && st.nextNonce.set && st.nextNonce.val == resp.Nonce + 1
 //@ emits[C05.sender C06.layout C07.emitted C14.emitted C12.emitted C08.emitted] [MessageSent{Message: encMessage(0, 4, msg.DestinationDomain, nextNonceOf(old(st)), pad32(accBytes(msg.From)), msg.Recipient, msg.DestinationCaller, msg.MessageBody)}]
 //@ calls[C04.others C05.others] []
@@ -587,7 +587,7 @@ package keeper
 // Stored burn limits are never nil (SetPerMessageBurnLimit's contract). validDenom is sdk.ValidateDenom.
 //@ func (msgServer) depositForBurn(ctx, from, amount, destinationDomain, mintRecipient, burnToken, destinationCaller) (nonce, err)
 //@ requires[rep.limits]  st.burnLimits.has[lower(burnToken)] ==> !st.burnLimits.nil[lower(burnToken)]
-//@ ensures[C08.ok C14.ok C12.pause] (err == nil) <==> (depositPre(old(st), from, amount, destinationDomain, mintRecipient, burnToken) && !depFails(0) && !depFails(1) && depositLate(old(st), destinationDomain, mintRecipient, destinationCaller) && !emitErr(0) && !emitErr(1))
+//@ ensures[C08.ok C12.pause] (err == nil) <==> (depositPre(old(st), from, amount, destinationDomain, mintRecipient, burnToken) && !depFails(0) && !depFails(1) && depositLate(old(st), destinationDomain, mintRecipient, destinationCaller) && !emitErr(0) && !emitErr(1))
 //@ ensures[C12.bm]       err == nil ==> !bmPausedIn(old(st)) && !srPausedIn(old(st))
 //@ ensures[C14.dep]      depFails(0) || depFails(1) ==> err != nil
 //@ ensures[C05.denom]    err == nil ==> foldEq(mintingDenom(), burnToken) && amount.v > 0
@@ -601,7 +601,7 @@ package keeper
 
 //@ func (msgServer) DepositForBurn(goCtx, msg) (resp, err)
 //@ requires[rep.limits]  st.burnLimits.has[lower(msg.BurnToken)] ==> !st.burnLimits.nil[lower(msg.BurnToken)]
-//@ ensures[C08.ok C14.ok C12.pause] (err == nil) <==> (depositPre(old(st), msg.From, msg.Amount, msg.DestinationDomain, msg.MintRecipient, msg.BurnToken) && !depFails(0) && !depFails(1) && depositLate(old(st), msg.DestinationDomain, msg.MintRecipient, "") && !emitErr(0) && !emitErr(1))
+//@ ensures[C08.ok C12.pause] (err == nil) <==> (depositPre(old(st), msg.From, msg.Amount, msg.DestinationDomain, msg.MintRecipient, msg.BurnToken) && !depFails(0) && !depFails(1) && depositLate(old(st), msg.DestinationDomain, msg.MintRecipient, "") && !emitErr(0) && !emitErr(1))
 //@ ensures[C12.bm]       err == nil ==> !bmPausedIn(old(st)) && !srPausedIn(old(st))
 //@ ensures[C14.dep]      depFails(0) || depFails(1) ==> err != nil
 //@ ensures[C05.denom]    err == nil ==> foldEq(mintingDenom(), msg.BurnToken) && msg.Amount.v > 0
@@ -612,7 +612,7 @@ package keeper
 
 //@ func (msgServer) DepositForBurnWithCaller(goCtx, msg) (resp, err)
 //@ requires[rep.limits]  st.burnLimits.has[lower(msg.BurnToken)] ==> !st.burnLimits.nil[lower(msg.BurnToken)]
-//@ ensures[C08.ok C14.ok C12.pause] (err == nil) <==> (len(msg.DestinationCaller) == 32 && msg.DestinationCaller != zeros(32) && depositPre(old(st), msg.From, msg.Amount, msg.DestinationDomain, msg.MintRecipient, msg.BurnToken) && !depFails(0) && !depFails(1) && depositLate(old(st), msg.DestinationDomain, msg.MintRecipient, msg.DestinationCaller) && !emitErr(0) && !emitErr(1))
+//@ ensures[C08.ok C12.pause] (err == nil) <==> (len(msg.DestinationCaller) == 32 && msg.DestinationCaller != zeros(32) && depositPre(old(st), msg.From, msg.Amount, msg.DestinationDomain, msg.MintRecipient, msg.BurnToken) && !depFails(0) && !depFails(1) && depositLate(old(st), msg.DestinationDomain, msg.MintRecipient, msg.DestinationCaller) && !emitErr(0) && !emitErr(1))
 //@ ensures[C12.bm]       err == nil ==> !bmPausedIn(old(st)) && !srPausedIn(old(st))
 //@ ensures[C14.dep]      depFails(0) || depFails(1) ==> err != nil
 //@ ensures[C05.denom]    err == nil ==> foldEq(mintingDenom(), msg.BurnToken) && msg.Amount.v > 0
@@ -634,7 +634,12 @@ package keeper
 //@ macro mintDenom(s, m)      := lower(s.tokenPairs.local[u32be(m, 4)][m[120:152]])
 
 //@ func (msgServer) ReceiveMessage(goCtx, msg) (resp, err)
-//@ ensures[C03.ok C01.gate C14.ok C12.pause] (err == nil) <==> (attested(old(st), msg.Message, old(msg.Attestation)) && headerOK(old(st), msg.Message, msg.From) && (toModule(msg.Message) ? (burnOK(old(st), msg.Message) && !depFails(0) && !emitErr(0) && !emitErr(1)) : !emitErr(0)))
+//@ ensures[C03.ok C12.pause] (err == nil) <==> (attested(old(st), msg.Message, old(msg.Attestation)) && headerOK(old(st), msg.Message, msg.From) && (toModule(msg.Message) ? (burnOK(old(st), msg.Message) && !depFails(0) && !emitErr(0) && !emitErr(1)) : !emitErr(0)))
+// The exact condition above, taken apart for the properties that state one direction of it: acceptance needs a valid
+// attestation (C01) and, for a mint, a successful mint (C14.mint below); an attestation by the enabled attesters is
+// accepted when nothing else stands in the way (C01, "conversely").
+//@ ensures[C01.gate]   err == nil ==> attested(old(st), msg.Message, old(msg.Attestation))
+//@ ensures[C01.accept] (attested(old(st), msg.Message, old(msg.Attestation)) && headerOK(old(st), msg.Message, msg.From) && (toModule(msg.Message) ? (burnOK(old(st), msg.Message) && !depFails(0) && !emitErr(0) && !emitErr(1)) : !emitErr(0))) ==> err == nil
 //@ ensures[C12.sr]    err == nil ==> !srPausedIn(old(st))
 //@ ensures[C12.bm]    err == nil && toModule(msg.Message) ==> !bmPausedIn(old(st))
 //@ ensures[C12.nomint] err == nil && bmPausedIn(old(st)) ==> calls == [] && len(events) == 1
@@ -650,14 +655,18 @@ package keeper
 //@ macro replaceOK(s, orig, att, from, newBody, newCaller) := !srPausedIn(s) && s.threshold.set && validAtt(orig, att, stAttestersOf(s), s.threshold.val) && len(orig) >= 116 && validBech32(from) && pad32(accBytes(from)) == orig[20:52] && u32be(orig, 4) == 4 && bodyFits(s, len(newBody)) && orig[52:84] != zeros(32) && len(newCaller) == 32
 
 //@ func (msgServer) ReplaceMessage(goCtx, msg) (resp, err)
-//@ ensures[C09.ok C01.gate C12.pause] (err == nil) <==> (replaceOK(old(st), msg.OriginalMessage, old(msg.OriginalAttestation), msg.From, msg.NewMessageBody, msg.NewDestinationCaller) && !emitErr(0))
+//@ ensures[C09.ok C12.pause] (err == nil) <==> (replaceOK(old(st), msg.OriginalMessage, old(msg.OriginalAttestation), msg.From, msg.NewMessageBody, msg.NewDestinationCaller) && !emitErr(0))
+//@ ensures[C01.gate]   err == nil ==> old(st.threshold.set) && validAtt(msg.OriginalMessage, old(msg.OriginalAttestation), stAttestersOf(old(st)), old(st.threshold.val))
+//@ ensures[C01.accept] (replaceOK(old(st), msg.OriginalMessage, old(msg.OriginalAttestation), msg.From, msg.NewMessageBody, msg.NewDestinationCaller) && !emitErr(0)) ==> err == nil
 //@ ensures[C12.sr]    err == nil ==> !srPausedIn(old(st))
 //@ emits[C09.keep C06.replace C07.reuse C05.own] [MessageSent{Message: encMessage(0, 4, u32be(msg.OriginalMessage, 8), u64be(msg.OriginalMessage, 12), msg.OriginalMessage[20:52], msg.OriginalMessage[52:84], msg.NewDestinationCaller, msg.NewMessageBody)}]
 //@ calls[C09.inert C04.others C05.others] []
 //@ modifies[C15.frame C09.inert C07.frame C02.frame C11.frame C12.frame C13.frame] none
 
 //@ func (msgServer) ReplaceDepositForBurn(goCtx, msg) (resp, err)
-//@ ensures[C09.ok C01.gate C12.pause] (err == nil) <==> (!bmPausedIn(old(st)) && len(msg.OriginalMessage) == 248 && validBech32(msg.From) && pad32(accBytes(msg.From)) == msg.OriginalMessage[216:248] && msg.NewMintRecipient != zeros(32) && len(msg.NewMintRecipient) == 32 && replaceOK(old(st), msg.OriginalMessage, old(msg.OriginalAttestation), bech32(moduleAddr), zeros(132), msg.NewDestinationCaller) && !emitErr(0) && !emitErr(1))
+//@ ensures[C09.ok C12.pause] (err == nil) <==> (!bmPausedIn(old(st)) && len(msg.OriginalMessage) == 248 && validBech32(msg.From) && pad32(accBytes(msg.From)) == msg.OriginalMessage[216:248] && msg.NewMintRecipient != zeros(32) && len(msg.NewMintRecipient) == 32 && replaceOK(old(st), msg.OriginalMessage, old(msg.OriginalAttestation), bech32(moduleAddr), zeros(132), msg.NewDestinationCaller) && !emitErr(0) && !emitErr(1))
+//@ ensures[C01.gate]   err == nil ==> old(st.threshold.set) && validAtt(msg.OriginalMessage, old(msg.OriginalAttestation), stAttestersOf(old(st)), old(st.threshold.val))
+//@ ensures[C01.accept] (!bmPausedIn(old(st)) && len(msg.OriginalMessage) == 248 && validBech32(msg.From) && pad32(accBytes(msg.From)) == msg.OriginalMessage[216:248] && msg.NewMintRecipient != zeros(32) && len(msg.NewMintRecipient) == 32 && replaceOK(old(st), msg.OriginalMessage, old(msg.OriginalAttestation), bech32(moduleAddr), zeros(132), msg.NewDestinationCaller) && !emitErr(0) && !emitErr(1)) ==> err == nil
 //@ ensures[C12.bm]    err == nil ==> !bmPausedIn(old(st)) && !srPausedIn(old(st))
 //@ ensures[C09.module C05.module] err == nil ==> msg.OriginalMessage[20:52] == modulePadded()
 //@ emits[C09.keep C06.replace C07.reuse C05.own] [MessageSent{Message: encMessage(0, 4, u32be(msg.OriginalMessage, 8), u64be(msg.OriginalMessage, 12), msg.OriginalMessage[20:52], msg.OriginalMessage[52:84], msg.NewDestinationCaller, encBurn(u32be(msg.OriginalMessage, 116), msg.OriginalMessage[120:152], msg.NewMintRecipient, u256be(msg.OriginalMessage, 184), msg.OriginalMessage[216:248]))}, DepositForBurn{Nonce: u64be(msg.OriginalMessage, 12), BurnToken: hexenc(msg.OriginalMessage[120:152]), Amount: u256be(msg.OriginalMessage, 184), Depositor: msg.From, MintRecipient: msg.NewMintRecipient, DestinationDomain: u32be(msg.OriginalMessage, 8), DestinationTokenMessenger: msg.OriginalMessage[52:84], DestinationCaller: msg.NewDestinationCaller}]
